@@ -13,7 +13,7 @@ CLAIMED = {
  'C08': seq('RefIntegrity as TLC invariant and C08_DeleteRules as action property on the forest, names and allocation sub-models; on recorded histories the projection keeps dangling references visible and both are evaluated after every request.', '7.8'),
  'C09': seq('TLC exhausts every labelled forest over 4 providers under create/update/delete at versions on both sides of 1.14 and 1.37 (Forest, RootCorrect, C09_Rejects); histories over 8 providers biased to subtree moves are validated step by step with the stored root pointer compared.', '7.9'),
  'C10': seq('C10_Step (must-bump / never-bump / never-decrease / returned generation equals stored) as action property of the TLC sub-models and as monitor on every recorded step; each write is followed by the reads that expose its generation.', '7.10'),
- 'C11': seq('API!Apply is the documented meaning; every recorded step over all modelled routes, versions 1.0-1.39, valid and invalid arguments, must equal Apply in status, error code, abstract body and complete next state (generation values up to their magnitude, which no property demands). Spec -> code: behaviours simulated by TLC from MC_API are replayed into the real application. The repository's own gabbi functional corpus (79 files, 1 312 exchanges, not part of the pinned suite) is recorded through a WSGI layer and judged by TLC: exchanges inside the alphabet of Apply step by step, the others by the request-independent rules.', '7.11'),
+ 'C11': seq('API!Apply is the documented meaning; every recorded step over all modelled routes, versions 1.0-1.39, valid and invalid arguments, must equal Apply in status, error code, abstract body and complete next state (generation values up to their magnitude, which no property demands). Spec -> code: behaviours simulated by TLC from MC_API are replayed into the real application. The repository\'s own gabbi functional corpus (79 files, 1 312 exchanges, not part of the pinned suite) is recorded through a WSGI layer and judged by TLC: exchanges inside the alphabet of Apply step by step, the others by the request-independent rules.', '7.11'),
  'C12': seq('ConsumerIffAllocs as TLC invariant, C12_Step as action property; histories over 4 consumers at the four version bands under default and custom incomplete_consumer_* configuration, validated step by step.', '7.12'),
  'C19': seq('C19_Inv / C19_Step on the names sub-model and on recorded histories of class/trait creation, rename and deletion; the projection compares the real os_traits / os_resource_classes vocabularies with the tables after every request. Character level: spec/NameRules.tla (legal custom name over code points, answers of the four creating operations) model checked through MC_NameRules, and crafted / mutated names sent to the real service with every exchange judged by TLC (TraceNames.tla): no illegal name stored, no duplicate, existing names answered 204 / 409.', '7.19'),
 }
@@ -51,8 +51,8 @@ def cnd(text, design_ref):
 
 CLAIMED.update({
  'C02': cnd('Every returned allocation request is checked by TLC for the structural laws (per class the placed amounts sum to the amounts asked, mappings name the providers that carry each group, providers exist) and the provider summaries for equality with the stored inventory / usage / traits / parent / root per microversion; each returned request (up to a bound per response) is then PUT unchanged as the allocations of a fresh consumer from a snapshot and must be answered 204. At design level TLC proves on 51 840 (state, query) pairs that every candidate of the reference is accepted by API!Apply.', '7.2'),
- 'C03': cnd('For every generated (database state, query) pair without limit, TLC compares the observed set of (allocations, mappings) with the set comprehension of spec/Candidates.tla: nothing the rules require may be missing (CandMust), nothing outside them may be returned (CandMay); below 1.29 only one-provider-per-tree combinations. The candidate / listing reads of the repository's own gabbi functional corpus (204 queries in its NUMA, shared-storage, granular and same-subtree fixtures; not part of the pinned suite) are mapped to the same abstract queries and judged by the same TLC oracle.', '7.3'),
- 'C13': cnd('For every generated combination of the listing filters (name, uuid, in_tree, member_of incl. repeated / in: / ! / !in:, required incl. in: and !, resources) in every generated state the returned uuid set must equal ListProviders(s, f); unknown traits / classes 400. The candidate / listing reads of the repository's own gabbi functional corpus (204 queries in its NUMA, shared-storage, granular and same-subtree fixtures; not part of the pinned suite) are mapped to the same abstract queries and judged by the same TLC oracle.', '7.13'),
+ 'C03': cnd('For every generated (database state, query) pair without limit, TLC compares the observed set of (allocations, mappings) with the set comprehension of spec/Candidates.tla: nothing the rules require may be missing (CandMust), nothing outside them may be returned (CandMay); below 1.29 only one-provider-per-tree combinations. The candidate / listing reads of the repository\'s own gabbi functional corpus (204 queries in its NUMA, shared-storage, granular and same-subtree fixtures; not part of the pinned suite) are mapped to the same abstract queries and judged by the same TLC oracle.', '7.3'),
+ 'C13': cnd('For every generated combination of the listing filters (name, uuid, in_tree, member_of incl. repeated / in: / ! / !in:, required incl. in: and !, resources) in every generated state the returned uuid set must equal ListProviders(s, f); unknown traits / classes 400. The candidate / listing reads of the repository\'s own gabbi functional corpus (204 queries in its NUMA, shared-storage, granular and same-subtree fixtures; not part of the pinned suite) are mapped to the same abstract queries and judged by the same TLC oracle.', '7.13'),
  'C20': cnd('For queries with a non-empty unlimited result: every limit 1..M+1 under both settings of randomize_allocation_candidates and several seeds; TLC checks count = min(N, M), distinctness, subset of the unlimited result, summaries, and - randomisation off - that repetition returns the identical ordered list.', '7.20'),
 })
 SURF_NOTE = ('Trusted base: TLC, pv/surface.py (probe requests and presence predicates), the transcription of the documentation into spec/Surface.tla, noauth2 in place of keystone. '
